@@ -70,6 +70,14 @@ def escape_pair(ctx, rule, which, check_spec=False):
     uri = which == 'uri'
     delim = pipe.prefix
     ctx.count('escape phases (%s)' % which, len(pipe.phases))
+    if getattr(sp, 'loop_exits', None):
+        ex = sp.loop_exits[0]
+        ctx.violation(rule, '%s::_unescape' % FP, norm(ex),
+                      'parse(dump(the string "a\u00e9b")): the scanning loop of _unescape leaves with `%s` after the first escape, '
+                      'so everything after it is dropped -- the text comes back as "a\u00e9"' % norm(ex),
+                      'a branch of the escape decoder ends the scan (`%s`) instead of going on with the rest of the text'
+                      % norm(ex), file=FP, line=ex.lineno, engine='E5')
+        return None
     # a fast path that emits the text raw must only be taken for texts made of characters the pipeline leaves alone
     for rc, how, fmt, node in getattr(pipe, 'fast', []):
         try:
@@ -176,6 +184,15 @@ def escape_pair(ctx, rule, which, check_spec=False):
             if out != chr(cp):
                 ok, why, wit_cp = False, 'decodes to %r' % out, cp
                 break
+            # (4) ... also with text around it: the decoder must consume exactly the image (a hex digit and a letter follow)
+            try:
+                out2, _ = T.decode_char(sp, 'a' + image + '0Z', uri)
+            except ValueError as e:
+                ok, why, wit_cp = False, 'decode-error %s' % e, cp
+                break
+            if out2 != 'a' + chr(cp) + '0Z':
+                ok, why, wit_cp = False, 'in-context %r' % out2, cp
+                break
         if ok:
             ctx.ob(rule, desc + ': accepted as token(s) of hs_%sChar, decoded back by _unescape' % which, True, where)
             continue
@@ -196,6 +213,11 @@ def escape_pair(ctx, rule, which, check_spec=False):
         elif why == 'delimiter':
             what = '%s emits a raw delimiter/line break for %s' % (fname, T.show_class(cls))
             wit = 'dump_scalar(%s) = %s%s%s ends the token (or the row) early' % (val, pipe.prefix, image, pipe.suffix)
+        elif why.startswith('in-context'):
+            what = ('_unescape does not consume exactly the escape %r emitted for %s: followed by other text it reads %s'
+                    % (image, T.show_class(cls), why[11:]))
+            wit = ('parse(dump(the string %r)): the text %r comes back as %s -- the decoder takes too many / too few '
+                   'characters for the escape' % ('a' + chr(cp) + '0Z', 'a' + image + '0Z', why[11:]))
         else:
             what = '%s emits %s as %r, which _unescape %s' % (fname, T.show_class(cls), image, why)
             wit = 'parse(dump(%s)): the text %r %s instead of %r' % (val, image, why, chr(cp))
@@ -878,3 +900,68 @@ def xstr_codec(ctx, rule):
         else:
             ctx.error(rule, 'XStr b64 payload `%s`: encoder not tabled; cannot decide' % norm(node.value)[:70])
     ctx.floor('XStr payload encoders', n, 2)
+
+
+# ---------------------------------------------------------------- parse actions use every token, in constructor order
+
+CTOR_ARG_ORDER = {'FilterBinary': [1, 0, 2]}     # (op, left, right) from tokens (left, op, right); all others: 0, 1, 2 ...
+
+
+def token_use_rule(ctx, rule, modname, floor=4):
+    """Every lambda parse action that picks tokens by position uses each token 0..max exactly where it belongs: on every
+    branch the set of positions used is gapless, and constructor arguments take the positions in order.  A position
+    used twice while another is skipped (Quantity(toks[0], toks[0]), Bin(toks[0]) for `Bin("mime")`) builds a value
+    from the wrong token."""
+    m = ctx.model
+    F_ = 'hszinc/%s.py' % modname
+    try:
+        g = G.grammar_of(m, modname)
+        uses = G.token_use(g)
+    except (Unsupported, AnalysisError) as e:
+        ctx.error(rule, 'token use (%s): %s' % (modname, e))
+        return
+    n = 0
+    for node, branches, mx in uses:
+        n += 1
+        want = list(range(mx + 1))
+        bad = [(t, ix) for t, ix in branches if ix != want]
+        where = '%s:%s' % (F_, node.lineno)
+        if bad:
+            t, ix = bad[0]
+            missing = sorted(set(want) - set(ix))
+            ctx.violation(rule, '%s::%s' % (F_, node.label()), t,
+                          'the element %s yields %d tokens, but the branch `%s` of its parse action uses only position(s) %s: '
+                          'token %s never reaches the value and another one is used in its place (e.g. a quantity built with its '
+                          'number as unit, a Bin built from the word "Bin")' % (node.label(), mx + 1, t, ix, missing),
+                          'a parse action of %s skips token position(s) %s' % (node.label(), missing), file=F_,
+                          line=node.lineno, engine='E2')
+            continue
+        # argument order of the constructor calls
+        act = G.action_returns(node.action)[0]
+        okorder = True
+        for c in ast.walk(act):
+            if isinstance(c, ast.Call) and isinstance(c.func, ast.Name) and c.func.id[:1].isupper():
+                pos = []
+                for a in list(c.args) + [k.value for k in c.keywords]:
+                    ii = [x.slice.value for x in ast.walk(a) if isinstance(x, ast.Subscript) and isinstance(x.value, ast.Name)
+                          and x.value.id == 'toks' and isinstance(x.slice, ast.Constant) and isinstance(x.slice.value, int)]
+                    if ii:
+                        pos.append(ii[0])
+                wantpos = CTOR_ARG_ORDER.get(c.func.id, sorted(pos))
+                if len(pos) > 1 and len(set(pos)) < len(pos):
+                    okorder = False
+                    ctx.violation(rule, '%s::%s' % (F_, node.label()), norm(c),
+                                  '%s receives the same token twice (positions %s): one of its fields is filled from the wrong '
+                                  'token (a quantity whose unit is its number, an XStr whose type is its payload)' % (c.func.id, pos),
+                                  'constructor arguments of %s repeat a token position' % c.func.id, file=F_,
+                                  line=node.lineno, engine='E2')
+                elif pos and pos != wantpos[:len(pos)] and len(pos) > 1:
+                    okorder = False
+                    ctx.violation(rule, '%s::%s' % (F_, node.label()), norm(c),
+                                  '%s is built with its tokens in the order %s (expected %s): e.g. latitude and longitude, or '
+                                  'name and display text, change places' % (c.func.id, pos, wantpos[:len(pos)]),
+                                  'constructor arguments of %s take the tokens out of order' % c.func.id, file=F_,
+                                  line=node.lineno, engine='E2')
+        if okorder:
+            ctx.ob(rule, '%s: the action uses token positions %s, each where it belongs' % (node.label(), want), True, where)
+    ctx.floor('parse actions picking tokens by position (%s)' % modname, n, floor)
